@@ -235,7 +235,13 @@ class ScriptedDecoder(ConstructiveDecoder):
                 used.append((self.keys[r], rep, step))
         if self.record:
             self.trace.append(used)
-        logits = torch.from_numpy(np.stack(rows, 0)).to(mask.device)
+        table = np.stack(rows, 0)
+        if getattr(self, "mem_layout", "contiguous") == "transposed":
+            # scores computed node-major ([actions, rows]) and handed over as a transposed view: same values,
+            # non-contiguous memory (a flattened view of it does not exist, reshape(-1) copies)
+            logits = torch.from_numpy(np.ascontiguousarray(table.T)).to(mask.device).t()
+        else:
+            logits = torch.from_numpy(table).to(mask.device)
         if self.gain is not None:
             logits = logits * self.gain
         self.calls += 1
